@@ -1,6 +1,7 @@
 #!/bin/bash
 cd /verif && /venv/bin/python -c "
-import sys; sys.path.insert(0,'harness'); import common as C
+import sys; sys.path.insert(0,'harness'); import common as C, translate
+translate.regenerate()
 try:
     print('built in', round(C.build_coq(),1), 's')
 except C.BuildError as e:
